@@ -49,6 +49,7 @@ def im_core(ctx):
     else:
         ctx.missing("R05.1", "reader table / publication functions")
     c05.r05_4(ctx)   # the snapshot and the receiver are taken in the same `&self` call (else updates in between are lost)
+    c05.r05_12(ctx)
     c05.r05_5(ctx)
     c05.r05_9(ctx)
     c05.r05_11(ctx)
